@@ -317,7 +317,12 @@ def main(argv):
         futs = {}
         for i, c in enumerate(cases):
             futs[ex.submit(run_case, (cid, tier, seed, i))] = c
+        done = 0
         for f in cf.as_completed(futs):
+            done += 1
+            if done % 200 == 0 or done == len(cases):
+                sys.stderr.write("[%s %s] %d/%d cases, %.0fs\n" % (cid, tier, done, len(cases), time.time() - t0))
+                sys.stderr.flush()
             try:
                 results.append(f.result())
             except Exception as e:
